@@ -43,6 +43,16 @@ func recvFieldLoad(fn *ssa.Function, v ssa.Value) *types.Var {
 // lenOfRecvField: v is len(recv.F) (through integer conversions); returns F.
 func lenOfRecvField(fn *ssa.Function, v ssa.Value) *types.Var {
 	v = stripConvert(v)
+	if call, ok := v.(*ssa.Call); ok && len(call.Call.Args) == 1 {
+		if bi, ok := call.Call.Value.(*ssa.Builtin); ok && bi.Name() == "len" {
+			// len of a helper's parameter: what the unit's call site passes
+			if a := throughParams(call.Call.Args[0]); a != call.Call.Args[0] {
+				if f := fieldOfLoad(a); f != nil {
+					return f
+				}
+			}
+		}
+	}
 	call, ok := v.(*ssa.Call)
 	if !ok {
 		return nil
@@ -136,7 +146,15 @@ func valuesToRead(fn *ssa.Function, v ssa.Value, optional bool) bool {
 
 func runFT(c *Ctx, rule string, which map[string]bool) {
 	r, u := c.R, c.U
+	defer func(old map[*ssa.Function]bool) { tpCtx = old }(tpCtx)
 	for _, fi := range fieldImpls(c) {
+		// helpers shared between column types are resolved at their call site in this type's methods
+		tpCtx = map[*ssa.Function]bool{}
+		for _, m := range []*ssa.Function{fi.write, fi.read} {
+			for _, g := range unitFns(u, m) {
+				tpCtx[g] = true
+			}
+		}
 		short := strings.TrimPrefix(fi.pkg, "uni/") + "." + fi.name
 		kind := fi.kind()
 		optional := kind == "OptionalField"
@@ -575,7 +593,10 @@ func throughHelperResult(u *Universe, fn *ssa.Function, v ssa.Value) (ssa.Value,
 			return v, fn
 		}
 		sc := call.Call.StaticCallee()
-		if sc == nil || !u.InUniverse(sc) || sc.Blocks == nil || sc.Signature.Recv() == nil || len(call.Call.Args) == 0 || len(fn.Params) == 0 || call.Call.Args[0] != ssa.Value(fn.Params[0]) {
+		if sc == nil || !u.InUniverse(sc) || sc.Blocks == nil || u.pkgPathOf(sc) != u.pkgPathOf(fn) {
+			return v, fn
+		}
+		if sc.Signature.Recv() != nil && (len(call.Call.Args) == 0 || len(fn.Params) == 0 || call.Call.Args[0] != ssa.Value(fn.Params[0])) {
 			return v, fn
 		}
 		var rets []*ssa.Return
